@@ -36,7 +36,8 @@ pub async fn run_conc<TC: HasRef>(b: &Value, tr: &mut Tracer) {
     let before_epoch = ctx.roots.len() as u64 - 1;
 
     // spawn the processes (gated)
-    ctx.db.ctl.lock().unwrap().gate_enabled = true;
+    let mt = b["mt"].as_bool().unwrap_or(false);
+    ctx.db.ctl.lock().unwrap().gate_enabled = !mt;
     let procs = b["procs"].as_array().unwrap().clone();
     let mut handles: HashMap<u32, tokio::task::JoinHandle<Value>> = HashMap::new();
     for p in procs.iter() {
@@ -167,6 +168,23 @@ pub async fn run_conc<TC: HasRef>(b: &Value, tr: &mut Tracer) {
     tr.emit(json!({"ev": "reopen", "kind": "concurrent_run", "schedule": schedule, "granted": granted}));
 
     // serialise: effective publishes in epoch order, then no-ops, then failed; then reader answers
+    // which (label, value) pairs storage holds per epoch: tells, among calls that returned the same
+    // (epoch, digest) pair, which one wrote the epoch and which ones were re-submissions after it
+    let mut stored: HashMap<u64, Vec<(Vec<u8>, Vec<u8>)>> = HashMap::new();
+    for r in ctx.db.all_records().await {
+        if let akd::storage::types::DbRecord::ValueState(vs) = r {
+            stored.entry(vs.epoch).or_default().push((vs.username.0.clone(), vs.value.0.clone()));
+        }
+    }
+    let mut wrote = |conc: &mut Conc, ep: u64, batch: &Value| -> bool {
+        let st = match stored.get(&ep) {
+            Some(s) => s,
+            None => return false,
+        };
+        st.iter().all(|(l, v)| {
+            batch.as_array().unwrap().iter().any(|p| conc.label(p[0].as_str().unwrap()).0 == *l && conc.value(p[1].as_str().unwrap()).0 == *v)
+        })
+    };
     let mut pubs: Vec<(u64, Digest, Value)> = vec![];
     let mut noops: Vec<(u64, Digest, Value)> = vec![];
     let mut failed: Vec<(Value, String)> = vec![];
@@ -182,7 +200,14 @@ pub async fn run_conc<TC: HasRef>(b: &Value, tr: &mut Tracer) {
             d.copy_from_slice(&hex::decode(r["digest"].as_str().unwrap()).unwrap());
             // a call that returned an (epoch, digest) pair another call already returned changed nothing
             // (a re-submission serialised after it); the same epoch with a different digest stays "ok"
-            if ep > before_epoch && !pubs.iter().any(|x: &(u64, Digest, Value)| x.0 == ep && x.1 == d) {
+            let same_pair_seen = pubs.iter().any(|x: &(u64, Digest, Value)| x.0 == ep && x.1 == d);
+            if ep > before_epoch && !same_pair_seen && wrote(&mut ctx.conc, ep, &p["batch"]) {
+                pubs.push((ep, d, p["batch"].clone()));
+            } else if ep > before_epoch && !same_pair_seen && !procs.iter().any(|q| {
+                // no other call returned this pair: this call is the only candidate for having written the epoch
+                q["kind"] == "publish" && q["pid"] != p["pid"] && results[&(q["pid"].as_u64().unwrap() as u32)]["epoch"].as_u64() == Some(ep)
+                    && results[&(q["pid"].as_u64().unwrap() as u32)]["digest"] == r["digest"]
+            }) {
                 pubs.push((ep, d, p["batch"].clone()));
             } else {
                 noops.push((ep, d, p["batch"].clone()));
@@ -269,6 +294,22 @@ pub fn main_conc(args: &[String]) {
     let threads: usize = arg_val(args, "--threads").map(|s| s.parse().unwrap()).unwrap_or(8);
     let behaviours = read_ndjson(&input);
     let (n, total) = crate::dirdrv::run_parallel(behaviours, &out, threads, |b| async move {
+        if b["mt"].as_bool().unwrap_or(false) {
+            // truly parallel run: own multi-thread runtime, gate open, tasks race freely
+            return tokio::task::spawn_blocking(move || {
+                let rt = tokio::runtime::Builder::new_multi_thread().worker_threads(4).enable_all().build().unwrap();
+                rt.block_on(async move {
+                    let mut tr = Tracer::new();
+                    match b["cfg"].as_str().unwrap_or("wa") {
+                        "wa" => run_conc::<Wa>(&b, &mut tr).await,
+                        _ => run_conc::<Exp>(&b, &mut tr).await,
+                    }
+                    tr
+                })
+            })
+            .await
+            .unwrap();
+        }
         let mut tr = Tracer::new();
         match b["cfg"].as_str().unwrap_or("wa") {
             "wa" => run_conc::<Wa>(&b, &mut tr).await,
